@@ -674,7 +674,13 @@ impl DbGen {
             } else {
                 let p = if self.rng.chance(status_bias) { pools.prop_index("status").unwrap() } else { self.rng.below(3) };
                 let v = self.value(p, pools);
-                LOp::Update(u, p, t.get(&u).and_then(|tk| tk.get(&p)).copied(), v, 1_000_000_000 * (1 + self.rng.below(4) as i64))
+                let mut old = t.get(&u).and_then(|tk| tk.get(&p)).copied();
+                if wild && self.rng.chance(60) {
+                    // a recorded old value that is not what is stored (a stale handle): the same as
+                    // the new value, or anything
+                    old = if self.rng.chance(60) { v } else { self.value(p, pools) };
+                }
+                LOp::Update(u, p, old, v, 1_000_000_000 * (1 + self.rng.below(4) as i64))
             };
             apply_shadow(&mut t, &lop_sync(&o));
             out.push(o);
